@@ -5,7 +5,7 @@ import LLRP.Gen.Schema
 oracle verbs of C04 (read-side fold on scripted sessions) and the parsers shared with C10.
 
 stream   ::= seg ('+' seg)*            seg ::= x<hex> | f<len>:<fill>      (byte j of an `f` segment = (fill + j + j/256) mod 256)
-steps    ::= '-' | step (',' step)*    step ::= (k|p)<n> ('+'<id> | '-'<id>)*   per frame: reads/panics after n; ids registered / cancelled before its lookup
+steps    ::= '-' | step (',' step)*    step ::= ((k|p)<n> | d | u) ('+'<id> | '-'<id>)*   per frame: reads/panics after n, calls data()/UnmarshalTo; ids registered / cancelled before its lookup
 `c04 <handlers|-> <default 0|1> <await0|-> <callers|-> <steps> <stream>` →
    `hdrs=<off>:<ver>:<typ>:<len>:<id>,… deliv=<frame>:<h|d>:<took>:<fnv of the bytes read>:<panicked>,… unh=<frame>,… callers=<id>=<result>,… fin=<err|wait|panic>`
 -/
@@ -46,6 +46,8 @@ def parseStep (s : String) : Option Step :=
     let beh : Option Beh := match hd with
       | 'k' :: n => (String.ofList n).toNat?.map Beh.reads
       | 'p' :: n => (String.ofList n).toNat?.map Beh.panics
+      | ['d'] => some Beh.viaData        -- the handler calls msg.data()
+      | ['u'] => some Beh.viaData        -- the handler calls msg.UnmarshalTo(…)
       | _ => none
     match beh with
     | none => none
@@ -69,9 +71,16 @@ def showHdrs (r : Result) (base : Nat) : String :=
 def partyLetter : Party → String
   | .caller => "c" | .handler => "h" | .dflt => "d"
 
-def showDeliv (ds : List Delivery) (shift : Nat) : String :=
+/-- what a scripted handler reports: frame, party, bytes it got and their hash, and 0 = returned | 1 = panicked |
+2 = `data()` / `UnmarshalTo` failed in `data()` (then it got nothing) -/
+def showDeliv (ds : List Delivery) (shift : Nat) (env : Nat → Step := fun _ => {}) : String :=
   ",".intercalate ((ds.filter (·.party != .caller)).map fun d =>
-    s!"{d.frame + shift}:{partyLetter d.party}:{d.took}:{fnv ((d.offered.getD []).take d.took)}:{if d.panicked then 1 else 0}")
+    let off := d.offered.getD []
+    if (env d.frame).beh == .viaData then
+      if d.hdr.payloadLen > MaxBuf || off.length < d.hdr.payloadLen then s!"{d.frame + shift}:{partyLetter d.party}:0:{fnv []}:2"
+      else s!"{d.frame + shift}:{partyLetter d.party}:{off.length}:{fnv off}:0"
+    else
+      s!"{d.frame + shift}:{partyLetter d.party}:{d.took}:{fnv (off.take d.took)}:{if d.panicked then 1 else 0}")
 
 def showSM : SMRes → String
   | .ok t d => s!"ok:{t}:{d.length}:{fnv d}"
@@ -101,7 +110,7 @@ def handleC04 : Handler := fun args =>
       let cfg : Cfg := { handlers := hs, hasDefault := df != 0 }
       let r := rd cfg (envOf steps) a0 s
       let cancelled := steps.flatMap (·.unreg)
-      s!"hdrs={dash (showHdrs r 0)} deliv={dash (showDeliv r.deliveries 0)} unh={dash (",".intercalate (r.unhandled.map toString))} callers={dash (showCallers r cancelled callers)} fin={showEnd r.fin}"
+      s!"hdrs={dash (showHdrs r 0)} deliv={dash (showDeliv r.deliveries 0 (envOf steps))} unh={dash (",".intercalate (r.unhandled.map toString))} callers={dash (showCallers r cancelled callers)} fin={showEnd r.fin}"
     | _, _, _, _, _, _ => "bad-op"
   | _ => none
 
